@@ -485,7 +485,7 @@ impl OutputFormat for IcyDraw {
                                                         layer.set_char(
                                                             (x, y),
                                                             crate::AttributedChar {
-                                                                ch: unsafe { char::from_u32_unchecked(ch) },
+                                                                ch: char::from_u32(ch).unwrap_or(char::REPLACEMENT_CHARACTER),
                                                                 attribute: crate::TextAttribute {
                                                                     foreground_color: fg,
                                                                     background_color: bg,
@@ -651,7 +651,7 @@ impl OutputFormat for IcyDraw {
                                                 layer.set_char(
                                                     (x, y),
                                                     crate::AttributedChar {
-                                                        ch: unsafe { char::from_u32_unchecked(ch) },
+                                                        ch: char::from_u32(ch).unwrap_or(char::REPLACEMENT_CHARACTER),
                                                         attribute: crate::TextAttribute {
                                                             foreground_color: fg,
                                                             background_color: bg,
